@@ -455,3 +455,52 @@ func VerifC05_IngressRoundTrip() {
 	verifrt.Assert(c14SameMap(got.Annotations, stable.Annotations, keys), "C05.ingress.stableAnnotationsKept")
 	verifrt.Cover("C05.ingress.done")
 }
+
+// c03IngressShare: once a step is applied the canary annotations carry exactly the step's value: canary-weight is the
+// step's weight (absent for a step without weight) and a header match is written with the step's name and value.
+func c03IngressShare(class string) {
+	r := c14Ctl(class)
+	p := "nginx.ingress.kubernetes.io/"
+	if class == "aliyun-alb" {
+		p = "alb.ingress.kubernetes.io/"
+	}
+	s := c14GenStep(class, 1, 1)
+	if len(s.matches) == 1 && len(s.matches[0].Headers) == 0 {
+		return
+	}
+	out, err := r.executeLuaForCanary(c14UserAnnotations(class), s.weight, s.matches, nil)
+	verifrt.Assert(err == nil, "C03.ingress."+class+".noError")
+	if err != nil {
+		return
+	}
+	w, has := out[p+"canary-weight"]
+	if s.weight != nil {
+		verifrt.Assert(has && w == fmt.Sprintf("%d", *s.weight), "C03.ingress."+class+".weightIsTheSteps")
+	} else {
+		verifrt.Assert(!has, "C03.ingress."+class+".noWeightWithoutWeightStep")
+	}
+	v, has := out[p+"canary"]
+	verifrt.Assert(has && v == "true", "C03.ingress."+class+".markedCanary")
+	if len(s.matches) == 1 {
+		h := s.matches[0].Headers[0]
+		if string(h.Name) == "canary-by-cookie" {
+			c, has := out[p+"canary-by-cookie"]
+			verifrt.Assert(has && c == h.Value, "C03.ingress."+class+".cookieIsTheSteps")
+		} else {
+			n, has := out[p+"canary-by-header"]
+			verifrt.Assert(has && n == string(h.Name), "C03.ingress."+class+".headerNameIsTheSteps")
+			key := p + "canary-by-header-value"
+			if h.Type != nil && *h.Type == gatewayv1beta1.HeaderMatchRegularExpression {
+				key = p + "canary-by-header-pattern"
+			}
+			hv, has := out[key]
+			verifrt.Assert(has && hv == h.Value, "C03.ingress."+class+".headerValueIsTheSteps")
+		}
+	}
+	verifrt.Cover("C03.ingress." + class + ".done")
+}
+
+func VerifC03_IngressStepShare_nginx()   { c03IngressShare("nginx") }
+func VerifC03_IngressStepShare_alb()     { c03IngressShare("aliyun-alb") }
+func VerifC03_IngressStepShare_higress() { c03IngressShare("higress") }
+func VerifC03_IngressStepShare_mse()     { c03IngressShare("mse") }
